@@ -332,6 +332,15 @@ pub fn eval(c: &Case) -> (Vec<Finding>, String, usize) {
         outs.push(("Passkey:debug".into(), format!("{p:?}").into_bytes()));
         outs.push(("Passkey:pretty-debug".into(), format!("{p:#?}").into_bytes()));
     }
+    // public helpers applied to what a caller holds after the ceremony: the stored (private) COSE key
+    // given to the public-key converter
+    for p in &items {
+        match par::catch(|| passkey_authenticator::public_key_der_from_cose_key(&p.key)) {
+            Ok(Ok(der)) => outs.push(("public_key_der_from_cose_key(stored key):bytes".into(), der.to_vec())),
+            Ok(Err(e)) => outs.push(("public_key_der_from_cose_key(stored key):error".into(), format!("{e:?}").into_bytes())),
+            Err(_) => {}
+        }
+    }
     let mut scanned = 0usize;
     // "The public key inside attested credential data carries public parameters only"
     for (oname, bytes) in &outs {
@@ -397,7 +406,7 @@ pub fn run(ctx: &Ctx) -> Result<Run, String> {
     }
     let mut run = Run::from_stats(
         "exploration",
-        "(a) product of operation {client register/authenticate, CTAP2 makeCredential/getAssertion, U2F register/authenticate, getInfo, error paths} x hmac-secret configuration(3) x evaluation at creation x PRF request {none, one, two inputs} x user verified x client-data mode x counter x configured credential-id length {16, 32, 48, 64} for registrations; (b) a credential created by the library itself (CTAP2 level, and through the client with pre-hashed PRF inputs) asserted with every salt of the constants dictionary (each string literal of the library sources as SHA-256, zero-padded, and under the client's salt derivation; every 7th case with a second salt) x hmac-secret configuration x evaluation at creation x user verified; after each ceremony every secret in the store (private scalars, both PRF secrets of every credential, new ones included) is searched in every returned value's Debug / pretty Debug / JSON / CBOR / raw encodings and in the Debug of each stored Passkey, as raw bytes, hex (both cases), decimal list, base64 and base64url in all three bit alignments. Non-trivial = distinct ceremony that returned a success value",
+        "(a) product of operation {client register/authenticate, CTAP2 makeCredential/getAssertion, U2F register/authenticate, getInfo, error paths} x hmac-secret configuration(3) x evaluation at creation x PRF request {none, one, two inputs} x user verified x client-data mode x counter x configured credential-id length {16, 32, 48, 64} for registrations; (b) a credential created by the library itself (CTAP2 level, and through the client with pre-hashed PRF inputs) asserted with every salt of the constants dictionary (each string literal of the library sources as SHA-256, zero-padded, and under the client's salt derivation; every 7th case with a second salt) x hmac-secret configuration x evaluation at creation x user verified; after each ceremony every secret in the store (private scalars, both PRF secrets of every credential, new ones included) is searched in every returned value's Debug / pretty Debug / JSON / CBOR / raw encodings in the Debug of each stored Passkey and in the output of public_key_der_from_cose_key applied to each stored key, as raw bytes, hex (both cases), decimal list, base64 and base64url in all three bit alignments. Non-trivial = distinct ceremony that returned a success value",
         true,
         stats,
     );
